@@ -11,6 +11,7 @@ import (
 	"time"
 
 	"github.com/tormoder/fit"
+	"github.com/tormoder/fit/dyncrc16"
 
 	"verif/fitmodel"
 	"verif/vx"
@@ -200,6 +201,9 @@ var (
 	poolActB, poolLossyB = csdActivity(9, 2, hdr12())
 )
 
+// sharedDecodeOptions: built once per process, handed to several Decode calls.
+var sharedDecodeOptions = []fit.DecodeOption{fit.WithUnknownFields(), fit.WithUnknownMessages()}
+
 var (
 	opPoolOnce sync.Once
 	opPoolV    []poolOp
@@ -315,6 +319,36 @@ func buildOpPool() []poolOp {
 		decodeOp("Decode(monitoring, local time 12300 s ahead of UTC)", localMon(12300), nil, nil),
 		encodeOp("Encode(activity, local time 12307 s ahead)", localEnc(12307), false),
 		encodeOp("Encode(activity, local time 12300 s ahead)", localEnc(12300), true),
+	)
+	// option values that outlive a call: the same []DecodeOption used by every execution of this pool call in a process
+	// (options are values; applying them twice must not share counters or other state between decoders)
+	pool = append(pool, decodeOp("Decode(unknown items, one option value reused by every such call)", tie, nil, func() []fit.DecodeOption { return sharedDecodeOptions }))
+	// calls that stop inside the header (the error paths of the header reader), on two different inputs
+	pool = append(pool,
+		decodeOp("Decode(actA cut 9 bytes into the header) -> error", poolActA[:9], nil, nil),
+		poolOp{Name: "DecodeChained(settings, then a second header that breaks off after 13 bytes) -> error", Run: func(env opEnv) opResult {
+			res := safeDecodeChained(env.Reader(fitmodel.Concat(sSet.B, poolActA[:13])))
+			var sb strings.Builder
+			for _, f := range res.Files {
+				sb.WriteString(dumpFile(f) + ";")
+			}
+			return opResult{Text: fmt.Sprintf("err=%v panic=%s files=%d %s", res.Err, res.Panic, len(res.Files), sb.String())}
+		}},
+	)
+	// the checksum package on its own (lazily built tables and shared scratch state would live there)
+	pool = append(pool,
+		poolOp{Name: "dyncrc16.Checksum(4096 bytes)", Run: func(env opEnv) opResult {
+			return opResult{Text: fmt.Sprintf("sum=%04x", dyncrc16.Checksum(c14Pattern(4096)))}
+		}},
+		poolOp{Name: "dyncrc16.New, Write of 700 bytes in 1- and 299-byte pieces, Sum16", Run: func(env opEnv) opResult {
+			h := dyncrc16.New()
+			b := c14Pattern(700)
+			h.Write(b[:1])
+			h.Write(b[1:300])
+			h.Write(b[300:301])
+			h.Write(b[301:])
+			return opResult{Text: fmt.Sprintf("sum=%04x size=%d", h.Sum16(), h.Size())}
+		}},
 	)
 	// every call also reports the digest of the profile tables afterwards
 	for i := range pool {
